@@ -89,6 +89,98 @@ Fixpoint truthy_value (v : value) : bool :=
 Definition int_ctx (n : string) (v : value) (ctx : list (string * Z)) : list (string * Z) :=
   match v with VInt z => (n, z) :: ctx | _ => ctx end.
 
+(* ---------- loops, as combinators over an element reader ---------- *)
+(* an element reader: stream bytes, position, expression context -> value and new position *)
+Definition rfn := list Z -> Z -> list (string * Z) -> result (value * Z).
+
+(* [cls._read(stream, context) for _ in range(k)] *)
+Fixpoint seq_n (rd : rfn) (k : nat) (s : list Z) (pos : Z) (ctx : list (string * Z)) : result (list value * Z) :=
+  match k with
+  | O => Ok ([], pos)
+  | S k' => do x <- rd s pos ctx; do r <- seq_n rd k' s (snd x) ctx; Ok (fst x :: fst r, snd r)
+  end.
+(* while not _is_eof(stream): append(_read) *)
+Fixpoint seq_eof (rd : rfn) (f : nat) (s : list Z) (pos : Z) (ctx : list (string * Z)) : result (list value * Z) :=
+  match f with
+  | O => Err EOutOfFuel
+  | S f' => if zlen s <=? pos then Ok ([], pos)
+            else do x <- rd s pos ctx; do r <- seq_eof rd f' s (snd x) ctx; Ok (fst x :: fst r, snd r)
+  end.
+(* _read_0 of Int / LEB128 / Packed: element by element until a zero, which is consumed *)
+Fixpoint zero_term (isz : value -> bool) (rd : rfn) (f : nat) (s : list Z) (pos : Z) (ctx : list (string * Z)) : result (list value * Z) :=
+  match f with
+  | O => Err EOutOfFuel
+  | S f' => do x <- rd s pos ctx;
+            if isz (fst x) then Ok ([], snd x)
+            else do r <- zero_term isz rd f' s (snd x) ctx; Ok (fst x :: fst r, snd r)
+  end.
+(* Structure._read_0: while obj := cls._read(...) *)
+Fixpoint falsy_term (rd : rfn) (f : nat) (s : list Z) (pos : Z) (ctx : list (string * Z)) : result (list value * Z) :=
+  match f with
+  | O => Err EOutOfFuel
+  | S f' => do x <- rd s pos ctx;
+            if truthy_value (fst x) then do r <- falsy_term rd f' s (snd x) ctx; Ok (fst x :: fst r, snd r)
+            else Ok ([], snd x)
+  end.
+(* Char._read_0: byte by byte until \x00 *)
+Fixpoint char_term (f : nat) (s : list Z) (pos : Z) (acc : list Z) : result (value * Z) :=
+  match f with
+  | O => Err EOutOfFuel
+  | S f' => match sread s pos 1 with
+            | [b] => if b =? 0 then Ok (VBytes (rev acc), pos + 1) else char_term f' s (pos + 1) (b :: acc)
+            | _ => Err EEof
+            end
+  end.
+Fixpoint wchar_term (en : endian) (f : nat) (s : list Z) (pos : Z) (acc : list Z) : result (value * Z) :=
+  match f with
+  | O => Err EOutOfFuel
+  | S f' => match sread s pos 2 with
+            | [a; b] => if (a =? 0) && (b =? 0)
+                        then do cps <- utf16_decode en (rev acc); Ok (VWstr cps, pos + 2)
+                        else wchar_term en f' s (pos + 2) (b :: a :: acc)
+            | _ => Err EEof
+            end
+  end.
+
+(* what the structure loop needs to know about a field *)
+Record fmeta := mkFM { fm_name : string; fm_bits : option Z; fm_storage : option (prim * Z); fm_align : Z }.
+
+(* StructureMetaType._read's loop over the fields (each with its reader), with the offsets the layout computed *)
+Fixpoint struct_loop (e : string) (aligned : bool) (start : Z) (items : list (fmeta * rfn)) (offs : list (option Z))
+         (s : list Z) (pos : Z) (bb : bitbuf) (vals : list (string * value)) (sizes : list (string * Z)) (lctx : list (string * Z))
+  : result (list (string * value) * list (string * Z) * Z) :=
+  match items, offs with
+  | [], _ => Ok (rev vals, rev sizes, pos)
+  | (m, rd) :: r, o :: ro =>
+    let n := fm_name m in
+    let off1 := match o with Some fo => start + fo | None => pos end in
+    let off2 := if aligned then (match o with None => off1 + pad_to off1 (fm_align m) | Some _ => off1 end) else off1 in
+    let plain := (* a field that is not a bit field (bits None or 0) *)
+      do x <- rd s off2 lctx;
+      struct_loop e aligned start r ro s (snd x) bb_empty ((n, fst x) :: vals) ((n, snd x - off2) :: sizes) (int_ctx n (fst x) lctx) in
+    match fm_bits m with
+    | Some nb =>
+      if nb =? 0 then plain
+      else
+        do x <- bb_read e s off2 bb (fm_storage m) nb;
+        let '(v, bb', pos') := x in
+        struct_loop e aligned start r ro s pos' bb' ((n, VInt v) :: vals) sizes ((n, v) :: lctx)
+    | None => plain
+    end
+  | _ :: _, [] => Err EType
+  end.
+
+(* UnionMetaType._read_fields over a buffer `buf` with base offset `base`; returns members and the position after the LAST member *)
+Fixpoint union_loop (items : list (string * option Z * rfn)) (buf : list Z) (base : Z) (last : Z)
+         (vals : list (string * value)) (lctx : list (string * Z)) : result (list (string * value) * Z) :=
+  match items with
+  | [] => Ok (rev vals, last)
+  | (n, fo, rd) :: r =>
+    let st := match fo with Some o => o | None => 0 end in
+    do x <- rd buf (base + st) lctx;
+    union_loop r buf base (snd x) ((n, fst x) :: vals) (int_ctx n (fst x) lctx)
+  end.
+
 Section Reader.
   Variable c : cfg.
   Let e := c_endian c.
@@ -97,17 +189,15 @@ Section Reader.
   Definition eval_len (ctx : list (string * Z)) (toks : list string) : option Z :=
     evaluate ctx (c_consts c) sizeof_fn toks.
 
-  (* Packed._read_array for a count *)
+  (* Packed._read_array for a count: one read of n elements, struct.unpack *)
+  Fixpoint unpack_n (p : prim) (k : nat) (bs : list Z) : result (list value) :=
+    match k with
+    | O => Ok []
+    | S k' => do x <- prim_read e p bs; do r <- unpack_n p k' (snd x); Ok (fst x :: r)
+    end.
   Definition packed_read_n (p : prim) (n : Z) (s : list Z) (pos : Z) : result (list value * Z) :=
     match prim_size_z p with
-    | Some sz =>
-      do bs <- sread_exact s pos (sz * n);
-      (* struct.unpack of n items *)
-      (fix go (k : nat) (bs : list Z) : result (list value * Z) :=
-         match k with
-         | O => Ok ([], pos + sz * n)
-         | S k' => do x <- prim_read e p bs; do r <- go k' (snd x); Ok (fst x :: fst r, snd r)
-         end) (Z.to_nat n) bs
+    | Some sz => do bs <- sread_exact s pos (sz * n); do vs <- unpack_n p (Z.to_nat n) bs; Ok (vs, pos + sz * n)
     | None => Err EType
     end.
   (* Packed._read_array(EOF): all remaining whole elements; a partial tail makes struct.unpack raise *)
@@ -123,157 +213,82 @@ Section Reader.
     | None => Err EType
     end.
 
-  (* the generic readers, by structural recursion on the type; `fuel` bounds data-driven loops *)
+  Definition wrap_list (r : result (list value * Z)) : result (value * Z) := do x <- r; Ok (VList (fst x), snd x).
+
+  (* cls.type._read_array(stream, n, context) by element class *)
+  Definition read_count (fuel : nat) (el : ty) (rd : rfn) (n : Z) (s : list Z) (pos : Z) (ctx : list (string * Z)) : result (value * Z) :=
+    match el with
+    | TPrim PChar _ =>
+      if n =? 0 then Ok (VBytes [], pos) else do bs <- sread_exact s pos n; Ok (VBytes bs, pos + n)
+    | TPrim PWchar _ =>
+      if n =? 0 then Ok (VWstr [], pos)
+      else do bs <- sread_exact s pos (2 * n); do cps <- utf16_decode (prim_endian PWchar e) bs; Ok (VWstr cps, pos + 2 * n)
+    | TPrim (PInt _ _ true as p) _ | TPrim (PFloat _ as p) _ => wrap_list (packed_read_n p n s pos)
+    | TEnum (PInt _ _ true as p) _ _ _ => wrap_list (packed_read_n p n s pos)
+    | _ =>
+      (* [cls._read(stream) for _ in range(n)]: each non-empty element consumes input, so more than len+65 iterations
+         can only complete for zero-size elements (reported as out of fuel); len = the bytes left from pos *)
+      let cap := zlen (srest s pos) + 65 in
+      do r <- seq_n rd (Z.to_nat (Z.min n cap)) s pos ctx;
+      if cap <? n then Err EOutOfFuel else Ok (VList (fst r), snd r)
+    end.
+  Definition read_eof_mode (fuel : nat) (el : ty) (rd : rfn) (s : list Z) (pos : Z) (ctx : list (string * Z)) : result (value * Z) :=
+    match el with
+    | TPrim PChar _ => let d := srest s pos in Ok (VBytes d, pos + zlen d)
+    | TPrim PWchar _ => let d := srest s pos in do cps <- utf16_decode (prim_endian PWchar e) d; Ok (VWstr cps, pos + zlen d)
+    | TPrim (PInt _ _ true as p) _ | TPrim (PFloat _ as p) _ => wrap_list (packed_read_eof p s pos)
+    | TEnum (PInt _ _ true as p) _ _ _ => wrap_list (packed_read_eof p s pos)
+    | _ => wrap_list (seq_eof rd fuel s pos ctx)
+    end.
+  Definition read_null (fuel : nat) (el : ty) (rd : rfn) (s : list Z) (pos : Z) (ctx : list (string * Z)) : result (value * Z) :=
+    match el with
+    | TPrim PChar _ => char_term fuel s pos []
+    | TPrim PWchar _ => wchar_term (prim_endian PWchar e) fuel s pos []
+    | TPrim PVoid _ => Ok (VList [VVoid], pos)                     (* Void._read_0 *)
+    | TPrim _ _ | TEnum _ _ _ _ => wrap_list (zero_term (is_zero_for el) rd fuel s pos ctx)
+    | TStruct _ _ _ | TUnion _ _ _ => wrap_list (falsy_term rd fuel s pos ctx)
+    | TPtr _ | TArr _ _ => Err EUnsupported                        (* MetaType._read_0: NotImplementedError *)
+    end.
+  (* BaseArray._read *)
+  Definition read_array (fuel : nat) (el : ty) (rd : rfn) (len : alen) (s : list Z) (pos : Z) (ctx : list (string * Z)) : result (value * Z) :=
+    match len with
+    | LNull => read_null fuel el rd s pos ctx
+    | LFixed n => read_count fuel el rd (Z.max 0 n) s pos ctx
+    | LExpr toks is_eof =>
+      match eval_len ctx toks with
+      | Some v => read_count fuel el rd (Z.max 0 v) s pos ctx
+      | None => if is_eof then read_eof_mode fuel el rd s pos ctx else Err EExpr
+      end
+    end.
+
+  Definition meta_of (f : field) : fmeta :=
+    mkFM (f_name f) (f_bits f) (bit_storage (f_ty f)) (let a := ty_align c (f_ty f) in if a =? 0 then 1 else a).
+
+  (* the generic reader, by structural recursion on the type; `fuel` bounds data-driven loops *)
   Fixpoint read_ty (fuel : nat) (t : ty) (s : list Z) (pos : Z) (ctx : list (string * Z)) {struct t} : result (value * Z) :=
     match t with
     | TPrim p _ => prim_read_at e p s pos
     | TEnum b _ _ _ => prim_read_at e b s pos                      (* cls(cls.type._read(stream)): value preserved *)
     | TPtr _ => prim_read_at e (c_ptr c) s pos                     (* the address *)
-    | TArr el len =>
-      let seq_n := (fix go (k : nat) (pos : Z) : result (list value * Z) :=
-                      match k with
-                      | O => Ok ([], pos)
-                      | S k' => do x <- read_ty fuel el s pos ctx; do r <- go k' (snd x); Ok (fst x :: fst r, snd r)
-                      end) in
-      (* while not _is_eof(stream): append(_read) *)
-      let seq_eof := (fix go (f : nat) (pos : Z) : result (list value * Z) :=
-                        match f with
-                        | O => Err EOutOfFuel
-                        | S f' => if zlen s <=? pos then Ok ([], pos)
-                                  else do x <- read_ty fuel el s pos ctx; do r <- go f' (snd x); Ok (fst x :: fst r, snd r)
-                        end) in
-      (* _read_0 of Int / LEB128 / Packed (element by element until a zero) *)
-      let zero_term := (fix go (f : nat) (pos : Z) : result (list value * Z) :=
-                          match f with
-                          | O => Err EOutOfFuel
-                          | S f' => do x <- read_ty fuel el s pos ctx;
-                                    if is_zero_for el (fst x) then Ok ([], snd x)
-                                    else do r <- go f' (snd x); Ok (fst x :: fst r, snd r)
-                          end) in
-      (* Structure._read_0: while obj := cls._read(...) *)
-      let falsy_term := (fix go (f : nat) (pos : Z) : result (list value * Z) :=
-                           match f with
-                           | O => Err EOutOfFuel
-                           | S f' => do x <- read_ty fuel el s pos ctx;
-                                     if truthy_value (fst x) then do r <- go f' (snd x); Ok (fst x :: fst r, snd r)
-                                     else Ok ([], snd x)
-                           end) in
-      let wrap (r : result (list value * Z)) : result (value * Z) := do x <- r; Ok (VList (fst x), snd x) in
-      let read_count (n : Z) : result (value * Z) :=
-        match el with
-        | TPrim PChar _ =>
-          if n =? 0 then Ok (VBytes [], pos) else do bs <- sread_exact s pos n; Ok (VBytes bs, pos + n)
-        | TPrim PWchar _ =>
-          if n =? 0 then Ok (VWstr [], pos)
-          else do bs <- sread_exact s pos (2 * n); do cps <- utf16_decode (prim_endian PWchar e) bs; Ok (VWstr cps, pos + 2 * n)
-        | TPrim (PInt _ _ true as p) _ | TPrim (PFloat _ as p) _ => wrap (packed_read_n p n s pos)
-        | TEnum (PInt _ _ true as p) _ _ _ => wrap (packed_read_n p n s pos)
-        | _ =>
-          (* [cls._read(stream) for _ in range(n)]: each non-empty element consumes input, so more than
-             len+65 iterations can only complete for zero-size elements (reported as out of fuel) *)
-          let cap := zlen s + 65 in
-          do r <- seq_n (Z.to_nat (Z.min n cap)) pos;
-          if cap <? n then Err EOutOfFuel else Ok (VList (fst r), snd r)
-        end in
-      let read_eof_mode : result (value * Z) :=
-        match el with
-        | TPrim PChar _ => let d := srest s pos in Ok (VBytes d, pos + zlen d)
-        | TPrim PWchar _ => let d := srest s pos in do cps <- utf16_decode (prim_endian PWchar e) d; Ok (VWstr cps, pos + zlen d)
-        | TPrim (PInt _ _ true as p) _ | TPrim (PFloat _ as p) _ => wrap (packed_read_eof p s pos)
-        | TEnum (PInt _ _ true as p) _ _ _ => wrap (packed_read_eof p s pos)
-        | _ => wrap (seq_eof fuel pos)
-        end in
-      match len with
-      | LNull =>
-        match el with
-        | TPrim PChar _ =>
-          (* byte by byte until \x00 *)
-          (fix go (f : nat) (pos : Z) (acc : list Z) : result (value * Z) :=
-             match f with
-             | O => Err EOutOfFuel
-             | S f' => match sread s pos 1 with
-                       | [b] => if b =? 0 then Ok (VBytes (rev acc), pos + 1) else go f' (pos + 1) (b :: acc)
-                       | _ => Err EEof
-                       end
-             end) fuel pos []
-        | TPrim PWchar _ =>
-          (fix go (f : nat) (pos : Z) (acc : list Z) : result (value * Z) :=
-             match f with
-             | O => Err EOutOfFuel
-             | S f' => match sread s pos 2 with
-                       | [a; b] => if (a =? 0) && (b =? 0)
-                                   then do cps <- utf16_decode (prim_endian PWchar e) (rev acc); Ok (VWstr cps, pos + 2)
-                                   else go f' (pos + 2) (b :: a :: acc)
-                       | _ => Err EEof
-                       end
-             end) fuel pos []
-        | TPrim PVoid _ => Ok (VList [VVoid], pos)                     (* Void._read_0 *)
-        | TPrim (PFloat _) _ => wrap (zero_term fuel pos)              (* Packed._read_0: value == 0 (exact bits handled by caller domain) *)
-        | TPrim _ _ | TEnum _ _ _ _ => wrap (zero_term fuel pos)
-        | TStruct _ _ _ | TUnion _ _ _ => wrap (falsy_term fuel pos)
-        | TPtr _ | TArr _ _ => Err EUnsupported                        (* MetaType._read_0: NotImplementedError *)
-        end
-      | LFixed n => read_count (Z.max 0 n)
-      | LExpr toks is_eof =>
-        match eval_len ctx toks with
-        | Some v => read_count (Z.max 0 v)
-        | None => if is_eof then read_eof_mode else Err EExpr
-        end
-      end
+    | TArr el len => read_array fuel el (read_ty fuel el) len s pos ctx
     | TStruct _ fs aligned =>
       match layout_struct c aligned fs with
       | Err er => Err er
       | Ok lay =>
-        let start := pos in
-        do r <-
-          (fix go (fs : list field) (offs : list (option Z)) (pos : Z) (bb : bitbuf)
-                  (vals : list (string * value)) (sizes : list (string * Z)) (lctx : list (string * Z))
-             : result (list (string * value) * list (string * Z) * Z) :=
-             match fs, offs with
-             | [], _ => Ok (rev vals, rev sizes, pos)
-             | Fld n _ ft fb _ :: r, o :: ro =>
-               let fa := (let a := ty_align c ft in if a =? 0 then 1 else a) in
-               let off1 := match o with Some fo => start + fo | None => pos end in
-               let off2 := if aligned then (match o with None => off1 + pad_to off1 fa | Some _ => off1 end) else off1 in
-               match fb with
-               | Some nb =>
-                 if nb =? 0 then
-                   do x <- read_ty fuel ft s off2 lctx;
-                   go r ro (snd x) bb_empty ((n, fst x) :: vals) ((n, snd x - off2) :: sizes) (int_ctx n (fst x) lctx)
-                 else
-                   do x <- bb_read e s off2 bb (bit_storage ft) nb;
-                   let '(v, bb', pos') := x in
-                   go r ro pos' bb' ((n, VInt v) :: vals) sizes ((n, v) :: lctx)
-               | None =>
-                 do x <- read_ty fuel ft s off2 lctx;
-                 go r ro (snd x) bb_empty ((n, fst x) :: vals) ((n, snd x - off2) :: sizes) (int_ctx n (fst x) lctx)
-               end
-             | _ :: _, [] => Err EType
-             end) fs (l_offs lay) pos bb_empty [] [] [];
+        do r <- struct_loop e aligned pos (map (fun f => (meta_of f, read_ty fuel (f_ty f))) fs) (l_offs lay) s pos bb_empty [] [] [];
         let '(vals, sizes, pos') := r in
-        let pos'' := if aligned then pos' + pad_to pos' (l_align lay) else pos' in
-        Ok (VStruct vals sizes, pos'')
+        Ok (VStruct vals sizes, if aligned then pos' + pad_to pos' (l_align lay) else pos')
       end
     | TUnion _ fs aligned =>
       let lay := layout_union c aligned fs in
-      (* _read_fields over a buffer `buf` with base offset `base`; returns members and the position after the LAST member *)
-      let members := (fix go (fs : list field) (buf : list Z) (base : Z) (last : Z)
-                              (vals : list (string * value)) (lctx : list (string * Z))
-                        : result (list (string * value) * Z) :=
-                        match fs with
-                        | [] => Ok (rev vals, last)
-                        | Fld n _ ft _ fo :: r =>
-                          let st := match fo with Some o => o | None => 0 end in
-                          do x <- read_ty fuel ft buf (base + st) lctx;
-                          go r buf base (snd x) ((n, fst x) :: vals) (int_ctx n (fst x) lctx)
-                        end) in
+      let items := map (fun f => (f_name f, f_off f, read_ty fuel (f_ty f))) fs in
       match l_size lay with
       | Some sz =>
         let buf := sread s pos sz in           (* stream.read(cls.size): may be short; the members then hit EOF *)
-        do m <- members fs buf 0 0 [] [];
+        do m <- union_loop items buf 0 0 [] [];
         Ok (VUnion buf (fst m), pos + zlen buf)
       | None =>
-        do m <- members fs s pos pos [] [];
+        do m <- union_loop items s pos pos [] [];
         let size := snd m - pos in
         do buf <- sread_exact s pos size;          (* the re-read of the union's bytes; EOFError when short *)
         Ok (VUnion buf (fst m), pos + size)
